@@ -394,7 +394,37 @@ def atoms_of_test(e: ast.expr, pol: bool, frame: Frame) -> List[Atom]:
                 a, b = b, a
                 o = '<=' if o == '<' else '<'
             return [(True, '%s %s %s' % (a, o, b))]
-    return [(pol, canon(e, frame))]
+    out = [(pol, canon(e, frame))]
+    if pol and isinstance(e, ast.Name):
+        # `m = arg and pattern.match(arg)` ... `if m:` - a truthy `a and b`
+        # means every operand was truthy
+        try:
+            fn = frame.ctx.func
+            from .model import walk_own
+            stores = [x for x in walk_own(fn.node) if isinstance(x, ast.Name)
+                      and x.id == e.id and isinstance(x.ctx, ast.Store)]
+            if len(stores) == 1 and e.id not in fn.params:
+                for a in walk_own(fn.node):
+                    if isinstance(a, ast.Assign) and len(a.targets) == 1 and \
+                            a.targets[0] is stores[0] and \
+                            isinstance(a.value, ast.BoolOp) and \
+                            isinstance(a.value.op, ast.And):
+                        for v in a.value.values:
+                            if isinstance(v, (ast.Name, ast.Attribute)):
+                                # (the operand must not have been re-bound
+                                # in between: parameters / single stores)
+                                nm = v.id if isinstance(v, ast.Name) else None
+                                if nm is not None and sum(
+                                        1 for x in walk_own(fn.node)
+                                        if isinstance(x, ast.Name) and
+                                        x.id == nm and
+                                        isinstance(x.ctx, ast.Store)) > (
+                                        0 if nm in fn.params else 1):
+                                    continue
+                                out.append((True, canon(v, frame)))
+        except Exception:
+            pass
+    return out
 
 
 def parse_atom(text: str) -> Atom:
